@@ -77,6 +77,222 @@ HUGE = 10**6
 
 
 # ---------------------------------------------------------------- translator (Gen)
+# ---------------------------------------------------------------- translator, part 2: structural facts of the .pyx sources
+def _pyx_function(src, name, fname):
+    """text of a top-level `def name(` / `cdef ... name(` up to the next top-level statement"""
+    m = re.search(r"^(?:def |cdef [\w .]*?|cpdef [\w .]*?)" + re.escape(name) + r"\(", src, re.M)
+    if not m:
+        raise ValueError(f"function {name} not found in {fname}")
+    rest = src[m.start():]
+    end = re.search(r"^(?:def |cdef |cpdef |@cython|ctypedef |class )", rest[1:], re.M)
+    return rest[:end.start() + 1] if end else rest
+
+
+def _strip_doc_comments(text):
+    text = re.sub(r'(?s)r?""".*?"""', '', text)
+    out = []
+    for line in text.split("\n"):
+        if "#" in line:
+            line = line[:line.index("#")]
+        if line.strip():
+            out.append(line.rstrip())
+    return out
+
+
+def _logical_lines(text):
+    """code lines with continuations joined (backslash / open brackets), all blanks removed"""
+    out, cur, depth = [], "", 0
+    for line in _strip_doc_comments(text):
+        piece = line.strip()
+        cont = piece.endswith("\\")
+        if cont:
+            piece = piece[:-1].strip()
+        cur += piece
+        depth += sum(piece.count(ch) for ch in "([{") - sum(piece.count(ch) for ch in ")]}")
+        if cont or depth > 0:
+            continue
+        out.append(re.sub(r"\s+", "", cur))
+        cur, depth = "", 0
+    if cur:
+        out.append(re.sub(r"\s+", "", cur))
+    return out
+
+
+def _guards(lines):
+    """(condition, exception class) of every `if/elif/else` whose body is a `raise`, in source order"""
+    res = []
+    for k, ln in enumerate(lines[:-1]):
+        m = re.match(r"^(?:if|elif)(.*):$", ln) or (re.match(r"^(else):$", ln))
+        nxt = re.match(r"^raise(\w+)\(", lines[k + 1])
+        if m and nxt:
+            res.append((m.group(1), nxt.group(1)))
+    return res
+
+
+def _signature(src, name, fname):
+    """[(parameter, default or '')] of a def in a .pyx (C type prefixes dropped)"""
+    m = re.search(r"^def " + re.escape(name) + r"\((.*?)\):", src, re.M | re.S)
+    if not m:
+        raise ValueError(f"signature of {name} not found in {fname}")
+    out = []
+    for part in re.sub(r"\s+", " ", m.group(1)).split(","):
+        part = part.strip()
+        if not part:
+            continue
+        if "=" in part:
+            lhs, dflt = part.split("=", 1)
+        else:
+            lhs, dflt = part, ""
+        out.append((lhs.strip().split(" ")[-1], dflt.strip().replace('"', "'")))
+    return out
+
+
+# facts: name -> (file, function, regex on a logical line (blank-free) with ONE group)
+_FACTS = [
+    # align_banded
+    ("banded.swap_condition", "banded", "align_banded", r"^if(len\(seq2\)<len\(seq1\)):$"),
+    ("banded.swap_band", "banded", "align_banded", r"^band=(\[-diagfordiaginband\])$"),
+    ("banded.swap_matrix", "banded", "align_banded", r"^matrix=(matrix\.transpose\(\))$"),
+    ("banded.lower_upper", "banded", "align_banded", r"^lower_diag,upper_diag=(.*)$"),
+    ("banded.crop_lower", "banded", "align_banded", r"^lower_diag=(max\(.*)$"),
+    ("banded.crop_upper", "banded", "align_banded", r"^upper_diag=(min\(.*)$"),
+    ("banded.band_width", "banded", "align_banded", r"^band_width=(.*)$"),
+    ("banded.table_shape", "banded", "align_banded", r"^trace_table=np\.zeros\((\(.*?\)),dtype"),
+    ("banded.neg_inf", "banded", "align_banded", r"^neg_inf=(np\.iinfo.*)$"),
+    ("banded.neg_inf_gap", "banded", "align_banded", r"^neg_inf-=(min\(gap_penalty\).*)$"),
+    ("banded.neg_inf_score_guard", "banded", "align_banded", r"^if(min_score<0):$"),
+    ("banded.border_left", "banded", "align_banded", r"^score_table\[:,0\]=(.*)$"),
+    ("banded.border_right", "banded", "align_banded", r"^score_table\[:,-1\]=(.*)$"),
+    ("banded.g1_init", "banded", "align_banded", r"^g1_table=np\.full\(\(.*?\),(\w+),"),
+    ("banded.g2_init", "banded", "align_banded", r"^g2_table=np\.full\(\(.*?\),(\w+),"),
+    ("banded.local_max_affine", "banded", "align_banded", r"^max_score=(np\.max\(m_table\))$"),
+    ("banded.local_max_linear", "banded", "align_banded", r"^max_score=(np\.max\(score_table\))$"),
+    ("banded.semi_max_affine", "banded", "align_banded", r"^max_score=(max\(m_max_score.*)$"),
+    ("banded.cut", "banded", "align_banded", r"^trace_list=(trace_list\[:max_number\])$"),
+    ("banded.swapped_result", "banded", "align_banded", r"^return\[Alignment\((\[seq2,seq1\],np\.flip\(trace,axis=1\),max_score)\)"),
+    # banded fill, linear
+    ("banded.fill.j_lo", "banded", "_fill_align_table", r"^forseq_jinrange\((max\(0,.*?\)),min"),
+    ("banded.fill.j_hi", "banded", "_fill_align_table", r"^forseq_jinrange\(max\(0,.*?\),(min\(.*\))\):$"),
+    ("banded.fill.j_table", "banded", "_fill_align_table", r"^j=(.*)$"),
+    ("banded.fill.from_diag", "banded", "_fill_align_table", r"^from_diag=(.*)$"),
+    ("banded.fill.from_left", "banded", "_fill_align_table", r"^from_left=(.*)$"),
+    ("banded.fill.from_top", "banded", "_fill_align_table", r"^from_top=(.*)$"),
+    ("banded.fill.local_floor", "banded", "_fill_align_table", r"^if(local==Trueandscore<=0):$"),
+    # banded fill, affine
+    ("banded.aff.mm", "banded", "_fill_align_table_affine", r"^mm_score=(.*)$"),
+    ("banded.aff.g1m", "banded", "_fill_align_table_affine", r"^g1m_score=(.*)$"),
+    ("banded.aff.g2m", "banded", "_fill_align_table_affine", r"^g2m_score=(.*)$"),
+    ("banded.aff.mg1", "banded", "_fill_align_table_affine", r"^mg1_score=(.*)$"),
+    ("banded.aff.g1g1", "banded", "_fill_align_table_affine", r"^g1g1_score=(.*)$"),
+    ("banded.aff.mg2", "banded", "_fill_align_table_affine", r"^mg2_score=(.*)$"),
+    ("banded.aff.g2g2", "banded", "_fill_align_table_affine", r"^g2g2_score=(.*)$"),
+    ("banded.aff.local_m", "banded", "_fill_align_table_affine", r"^if(m_score<=0):$"),
+    ("banded.aff.local_g1", "banded", "_fill_align_table_affine", r"^if(g1_score<=0):$"),
+    ("banded.aff.local_g2", "banded", "_fill_align_table_affine", r"^if(g2_score<=0):$"),
+    # trace starts
+    ("banded.starts.seq_j", "banded", "get_global_trace_starts", r"^seq_j=(.*)$"),
+    ("banded.starts.test", "banded", "get_global_trace_starts", r"^i=np\.where\((seq_j<seq2_len),"),
+    ("banded.starts.column_row", "banded", "get_global_trace_starts", r",(\(seq2_len-1\)-j-lower_diag\+2)\)$"),
+    # align_local_gapped
+    ("gapped.no_upstream", "localgapped", "align_local_gapped", r"^if(seq1_start==0orseq2_start==0):$"),
+    ("gapped.upstream_slices", "localgapped", "align_local_gapped", r"^score,upstream_traces=_align_region\((code1\[.*?\],code2\[.*?\]),"),
+    ("gapped.downstream_slices", "localgapped", "align_local_gapped", r"^score,downstream_traces=_align_region\((code1\[.*?\],code2\[.*?\]),"),
+    ("gapped.seed_score", "localgapped", "align_local_gapped", r"^total_score\+=(score_matrix\[.*)$"),
+    ("gapped.default_mts", "localgapped", "align_local_gapped", r"^max_table_size=(np\.iinfo\(np\.int64\)\.max)$"),
+    ("gapped.init_size", "localgapped", "_align_region", r"^init_size=(\(.*\))$"),
+    ("gapped.init_score", "localgapped", "_align_region", r"^init_score=(.*)$"),
+    ("gapped.region_result_score_only", "localgapped", "_align_region", r"^return(max_score-init_score,None)$"),
+    ("gapped.region_result", "localgapped", "_align_region", r"^return(max_score-init_score,trace_list)$"),
+    ("gapped.region_cut", "localgapped", "_align_region", r"^trace_list=(trace_list\[:max_number\])$"),
+    # X-drop fill, linear
+    ("gapped.fill.k_range", "localgapped", "_fill_align_table", r"^forkinrange\((.*)\):$"),
+    ("gapped.fill.i_min", "localgapped", "_fill_align_table", r"^i_min=(_min\(.*)$"),
+    ("gapped.fill.i_max", "localgapped", "_fill_align_table", r"^i_max=(_max\(.*)$"),
+    ("gapped.fill.i_min_clip", "localgapped", "_fill_align_table", r"^i_min=(_max\(.*)$"),
+    ("gapped.fill.i_max_clip", "localgapped", "_fill_align_table", r"^i_max=(_min\(.*)$"),
+    ("gapped.fill.stop", "localgapped", "_fill_align_table", r"^if(i_min>i_max):$"),
+    ("gapped.fill.j_max", "localgapped", "_fill_align_table", r"^j_max=(.*)$"),
+    ("gapped.fill.grow_rows", "localgapped", "_fill_align_table", r"^if(i_max>=score_table\.shape\[0\]):$"),
+    ("gapped.fill.grow_cols", "localgapped", "_fill_align_table", r"^if(j_max>=score_table\.shape\[1\]):$"),
+    ("gapped.fill.i_range", "localgapped", "_fill_align_table", r"^foriinrange\((.*)\):$"),
+    ("gapped.fill.j", "localgapped", "_fill_align_table", r"^j=(.*)$"),
+    ("gapped.fill.diag_valid", "localgapped", "_fill_align_table", r"^if(from_diag!=0):$"),
+    ("gapped.fill.from_diag", "localgapped", "_fill_align_table", r"^from_diag\+=(.*)$"),
+    ("gapped.fill.from_top", "localgapped", "_fill_align_table", r"^from_top=(score_table.*)$"),
+    ("gapped.fill.from_left", "localgapped", "_fill_align_table", r"^from_left=(score_table.*)$"),
+    ("gapped.fill.score_only", "localgapped", "_fill_align_table", r"^score=(_max\(.*)$"),
+    ("gapped.fill.new_max", "localgapped", "_fill_align_table", r"^if(score>max_score):$"),
+    ("gapped.fill.req_score", "localgapped", "_fill_align_table", r"^req_score=(max_score-threshold)$"),
+    # X-drop fill, affine
+    ("gapped.aff.mm_valid", "localgapped", "_fill_align_table_affine", r"^if(mm_score!=0):$"),
+    ("gapped.aff.mg1", "localgapped", "_fill_align_table_affine", r"^mg1_score=(m_table.*)$"),
+    ("gapped.aff.g1g1", "localgapped", "_fill_align_table_affine", r"^g1g1_score=(g1_table.*)$"),
+    ("gapped.aff.mg2", "localgapped", "_fill_align_table_affine", r"^mg2_score=(m_table.*)$"),
+    ("gapped.aff.g2g2", "localgapped", "_fill_align_table_affine", r"^g2g2_score=(g2_table.*)$"),
+    ("gapped.aff.accept_m", "localgapped", "_fill_align_table_affine", r"^if(m_score>=req_score):$"),
+    ("gapped.aff.accept_g1", "localgapped", "_fill_align_table_affine", r"^if(g1_score>=req_score):$"),
+    ("gapped.aff.accept_g2", "localgapped", "_fill_align_table_affine", r"^if(g2_score>=req_score):$"),
+    ("gapped.aff.result", "localgapped", "_align_region", r"^max_score=(np\.max\(m_table\))$"),
+    # align_local_ungapped
+    ("ungapped.upstream_condition", "localungapped", "align_local_ungapped", r"^if(upstreamandseq1_start>0andseq2_start>0):$"),
+    ("ungapped.upstream_slices", "localungapped", "align_local_ungapped", r"^score,length=_seed_extend_generic\((code1\[seq1_start-1.*?\],code2\[.*?\]),"),
+    ("ungapped.downstream_slices", "localungapped", "align_local_ungapped", r"^score,length=_seed_extend_generic\((code1\[seq1_start\+1.*?\],code2\[.*?\]),"),
+    ("ungapped.seed_score", "localungapped", "align_local_ungapped", r"^total_score\+=(score_matrix\[.*)$"),
+    ("ungapped.start_offset", "localungapped", "align_local_ungapped", r"^start_offset-=(.*)$"),
+    ("ungapped.stop_offset", "localungapped", "align_local_ungapped", r"^stop_offset\+=(.*)$"),
+    ("ungapped.trace_rows", "localungapped", "align_local_ungapped", r"^trace=np\.stack\(\[(np\.arange\(.*?\),np\.arange\(.*?\))\],"),
+    ("ungapped.extend.domain", "localungapped", "_seed_extend_generic", r"^foriinrange\((.*)\):$"),
+    ("ungapped.extend.step", "localungapped", "_seed_extend_generic", r"^total_score\+=(.*)$"),
+    ("ungapped.extend.result", "localungapped", "_seed_extend_generic", r"^return(max_score,i_max_score\+1)$"),
+    ("ungapped.extend.init", "localungapped", "_seed_extend_generic", r"^cdefinti_max_score=(-1)$"),
+    # _extend_table
+    ("gapped.extend.rows", "localgapped", "_extend_table", r"^new_shape=(\(table\.shape\[0\]\*2,table\.shape\[1\]\))$"),
+    ("gapped.extend.cols", "localgapped", "_extend_table", r"^new_shape=(\(table\.shape\[0\],table\.shape\[1\]\*2\))$"),
+    ("gapped.extend.copy", "localgapped", "_extend_table", r"^new_table\[(:table\.shape\[0\],:table\.shape\[1\])\]=table$"),
+]
+
+
+def extract_facts():
+    from common import paths
+    base = os.path.join(paths.SRC, "biotite/sequence/align")
+    srcs = {f: open(os.path.join(base, f + ".pyx")).read() for f in ("banded", "localgapped", "localungapped")}
+    lines = {}
+    facts = []
+    for name, f, fn, pat in _FACTS:
+        if (f, fn) not in lines:
+            lines[(f, fn)] = _logical_lines(_pyx_function(srcs[f], fn, f + ".pyx"))
+        hit = None
+        for ln in lines[(f, fn)]:
+            mm = re.search(pat, ln)
+            if mm:
+                hit = mm.group(1)
+                break
+        if hit is None:
+            raise ValueError(f"{f}.pyx {fn}: construct for '{name}' not found (pattern {pat})")
+        facts.append((name, hit))
+    # the decision trees of tracetable.pyx: every test and every assigned maximum, in source order
+    tt = open(os.path.join(base, "tracetable.pyx")).read()
+    for fn in ("get_trace_linear", "get_trace_affine"):
+        ll = _logical_lines(_pyx_function(tt, fn, "tracetable.pyx"))
+        conds = [mm.group(1) for ln in ll for mm in [re.match(r"^(?:if|elif)(.*):$", ln)] if mm]
+        assigns = [mm.group(1) + "=" + mm.group(2) for ln in ll for mm in [re.match(r"^(max_\w+)\[0\]=(\w+)$", ln)] if mm]
+        if not conds or not assigns:
+            raise ValueError(f"tracetable.pyx {fn}: decision tree not found")
+        facts.append((f"trace.{fn}.tests", ";".join(conds)))
+        facts.append((f"trace.{fn}.maxima", ";".join(assigns)))
+    guards = {}
+    sigs = {}
+    for f, fn in (("banded", "align_banded"), ("localgapped", "align_local_gapped"), ("localungapped", "align_local_ungapped"),
+                  ("localgapped", "_extend_table")):
+        key = (f, fn)
+        if key not in lines:
+            lines[key] = _logical_lines(_pyx_function(srcs[f], fn, f + ".pyx"))
+        guards[fn] = _guards(lines[key])
+        if not fn.startswith("_"):
+            sigs[fn] = _signature(srcs[f], fn, f + ".pyx")
+    return facts, guards, sigs
+
+
 def gen_lean():
     from common import paths
     base = os.path.join(paths.SRC, "biotite/sequence/align")
@@ -129,8 +345,30 @@ def gen_lean():
             f'def ungappedDrop : String := "{x_u}"',
             f'def ungappedKeep : String := "{k_u}"',
             "/-- `_extend_table`: MemoryError iff new_rows * new_cols <op> max_size -/",
-            f'def extendLimit : String := "{l_g}"',
-            "end BiotiteModel.Gen.C09", ""]
+            f'def extendLimit : String := "{l_g}"']
+    facts, guards, sigs = extract_facts()
+
+    def pairs(items):
+        return "[" + ",\n    ".join(f'("{a}", "{b}")' for a, b in items) + "]"
+    for v in [x for _, x in facts] + [x for g in guards.values() for p_ in g for x in p_] + \
+            [x for g in sigs.values() for p_ in g for x in p_]:
+        if chr(34) in v or chr(92) in v:
+            raise ValueError("extracted source text contains a quote / backslash: " + v)
+    body += ["/-- structural facts of `align_banded`, its fill functions and `get_global_trace_starts` (blank-free source text) -/",
+             "def bandedFacts : List (String × String) :=\n    " + pairs([f for f in facts if f[0].startswith("banded.")]),
+             "/-- structural facts of `align_local_gapped`, `_align_region`, the X-drop fills and `_extend_table` -/",
+             "def gappedFacts : List (String × String) :=\n    " + pairs([f for f in facts if f[0].startswith("gapped.")]),
+             "/-- structural facts of `align_local_ungapped` and `_seed_extend_generic` -/",
+             "def ungappedFacts : List (String × String) :=\n    " + pairs([f for f in facts if f[0].startswith("ungapped.")]),
+             "/-- tracetable.pyx: tests and assigned maxima of `get_trace_linear` / `get_trace_affine` in source order -/",
+             "def traceFacts : List (String × String) :=\n    " + pairs([f for f in facts if f[0].startswith("trace.")]),
+             "/-- every `if … : raise X` of the public functions in source order: (condition, exception class) -/"]
+    for fn, g in guards.items():
+        body.append(f"def guards_{fn.strip('_')} : List (String × String) :=\n    " + pairs(g))
+    body.append("/-- parameters and default values of the public functions -/")
+    for fn, g in sigs.items():
+        body.append(f"def signature_{fn} : List (String × String) :=\n    " + pairs(g))
+    body += ["end BiotiteModel.Gen.C09", ""]
     return {"BiotiteModel/Gen/C09.lean": "\n".join(body)}
 
 
